@@ -1,9 +1,944 @@
-//! C12 — not implemented yet (stub).
-use crate::engine::Opts;
-pub fn main(_opts: &Opts) -> i32 {
-    eprintln!("C12: check not implemented");
-    2
+//! C12 — JSON-LD serialisation round-trips every representable dataset.
+//!
+//! Statement: serialising any dataset whose quads JSON-LD can express (IRI or blank subjects and
+//! graph names, IRI predicates, any object) and parsing the result back gives a dataset
+//! isomorphic to the input, in every processing mode and with every lossless option setting;
+//! quads JSON-LD cannot express are the only ones omitted.
+//!
+//! Oracle: `representable(input)` (decided here from the statement, on model terms)
+//! must be `iso_exact` to `parse(serialize(input))`, same options on both sides, NoLoader.
+use crate::engine::*;
+use crate::iso::{diff_summary, iso_exact_budget};
+use crate::model::*;
+use proptest::prelude::*;
+use serde::{Deserialize, Serialize};
+use sophia_api::parser::QuadParser;
+use sophia_api::quad::Spog;
+use sophia_api::serializer::{QuadSerializer, Stringifier};
+use sophia_api::source::QuadSource;
+use sophia_api::term::SimpleTerm;
+use sophia_jsonld::loader::NoLoader;
+use sophia_jsonld::loader_factory::DefaultLoaderFactory;
+use sophia_jsonld::options::{ProcessingMode, RdfDirection};
+use sophia_jsonld::{JsonLdOptions, JsonLdParser, JsonLdSerializer};
+use std::collections::{BTreeMap, BTreeSet};
+
+#[derive(Clone, Debug, Serialize, Deserialize)]
+pub struct Case {
+    pub quads: Vec<MQ>,
+    pub mode11: bool,
+    pub use_rdf_type: bool,
+    /// 0 = none, 1 = i18n-datatype, 2 = compound-literal
+    pub dir: u8,
+    pub spaces: u8,
 }
-pub fn worker(_args: &[String]) -> i32 {
-    2
+
+pub struct C12;
+
+const I18N: &str = "https://www.w3.org/ns/i18n#";
+const ISO_BUDGET: u64 = 3_000_000;
+
+fn r(l: &str) -> MT {
+    MT::Iri(rdf(l))
+}
+fn x(l: &str) -> MT {
+    MT::Iri(format!("http://x/{l}"))
+}
+
+// ------------------------------------------------------------------ what JSON-LD can express
+
+/// From the statement: IRI or blank subjects and graph names, IRI predicates, any object
+/// (any RDF object: IRI, blank node or literal).
+pub fn representable(q: &MQ) -> bool {
+    (q.s.is_iri() || q.s.is_bnode())
+        && q.p.is_iri()
+        && (q.o.is_iri() || q.o.is_bnode() || q.o.is_literal())
+        && q.g.as_ref().map(|g| g.is_iri() || g.is_bnode()).unwrap_or(true)
+}
+
+/// i18n datatype IRIs that the JSON-LD "i18n-datatype" convention defines: `#<lang>_<dir>`,
+/// `<lang>` empty or a lower-case well-formed tag, `<dir>` ltr or rtl.
+fn i18n_canonical(dt: &str) -> bool {
+    let Some(rest) = dt.strip_prefix(I18N) else { return false };
+    let Some((lang, dir)) = rest.split_once('_') else { return false };
+    (dir == "ltr" || dir == "rtl")
+        && (lang.is_empty()
+            || (lang.split('-').all(|p| !p.is_empty() && p.len() <= 8 && p.chars().all(|c| c.is_ascii_lowercase() || c.is_ascii_digit()))
+                && lang.chars().next().unwrap().is_ascii_lowercase()))
+}
+
+// ------------------------------------------------------------------ JCS-canonical JSON generation
+
+#[derive(Clone, Debug)]
+enum J {
+    Null,
+    Bool(bool),
+    Int(i32),
+    Half(i32),
+    Str(String),
+    Arr(Vec<J>),
+    Obj(Vec<(String, J)>),
+}
+fn jcs_str(s: &str, out: &mut String) {
+    out.push('"');
+    for c in s.chars() {
+        match c {
+            '"' => out.push_str("\\\""),
+            '\\' => out.push_str("\\\\"),
+            '\u{8}' => out.push_str("\\b"),
+            '\u{c}' => out.push_str("\\f"),
+            '\n' => out.push_str("\\n"),
+            '\r' => out.push_str("\\r"),
+            '\t' => out.push_str("\\t"),
+            c if (c as u32) < 0x20 => out.push_str(&format!("\\u{:04x}", c as u32)),
+            c => out.push(c),
+        }
+    }
+    out.push('"');
+}
+/// RFC 8785 serialisation for the value shapes generated here
+fn jcs(j: &J, out: &mut String) {
+    match j {
+        J::Null => out.push_str("null"),
+        J::Bool(b) => out.push_str(if *b { "true" } else { "false" }),
+        J::Int(i) => out.push_str(&i.to_string()),
+        // n + 0.5 : exactly representable, ES6 Number::toString gives "<n>.5"
+        J::Half(i) => {
+            if *i < 0 {
+                out.push_str(&format!("-{}.5", -(*i + 1)));
+            } else {
+                out.push_str(&format!("{i}.5"))
+            }
+        }
+        J::Str(s) => jcs_str(s, out),
+        J::Arr(v) => {
+            out.push('[');
+            for (i, e) in v.iter().enumerate() {
+                if i > 0 {
+                    out.push(',')
+                }
+                jcs(e, out);
+            }
+            out.push(']');
+        }
+        J::Obj(kv) => {
+            // sort by UTF-16 code units, unique keys
+            let mut m: BTreeMap<Vec<u16>, (&String, &J)> = BTreeMap::new();
+            for (k, v) in kv {
+                m.entry(k.encode_utf16().collect()).or_insert((k, v));
+            }
+            out.push('{');
+            for (i, (k, v)) in m.values().enumerate() {
+                if i > 0 {
+                    out.push(',')
+                }
+                jcs_str(k, out);
+                out.push(':');
+                jcs(v, out);
+            }
+            out.push('}');
+        }
+    }
+}
+fn json_value() -> BoxedStrategy<J> {
+    let leaf = prop_oneof![
+        Just(J::Null),
+        any::<bool>().prop_map(J::Bool),
+        (-3i32..1000).prop_map(J::Int),
+        (-3i32..20).prop_map(J::Half),
+        pick(vec!["", "a", "é", "\"q\"", "a\\b", "\n", "\u{1}", "\u{1F600}", "@id", "http://x/a"]).prop_map(|s| J::Str(s.to_string())),
+    ];
+    leaf.prop_recursive(3, 12, 3, |inner| {
+        prop_oneof![
+            prop::collection::vec(inner.clone(), 0..3).prop_map(J::Arr),
+            prop::collection::vec((pick(vec!["a", "b", "@id", "é", "", "A", "\u{1F600}", "\u{d7ff}"]).prop_map(String::from), inner), 0..3).prop_map(J::Obj),
+        ]
+    })
+    .boxed()
+}
+fn json_literal() -> BoxedStrategy<MT> {
+    json_value()
+        .prop_map(|j| {
+            let mut s = String::new();
+            jcs(&j, &mut s);
+            MT::Lit(s, rdf("JSON"))
+        })
+        .boxed()
+}
+
+// ------------------------------------------------------------------ generator
+
+fn graphs() -> Vec<Option<MT>> {
+    vec![None, Some(x("g1")), Some(x("g2")), Some(MT::bn("g")), Some(x("a")), None]
+}
+fn node_labels() -> Vec<&'static str> {
+    vec!["l0", "l1", "l2", "l3", "a", "b", "g"]
+}
+fn subjects() -> BoxedStrategy<MT> {
+    prop_oneof![
+        3 => pick(vec![x("a"), x("b"), x("c"), MT::iri("tag:t")]),
+        3 => pick(node_labels()).prop_map(MT::bn),
+        1 => pick(vec!["c0", "c1", "0x", "e\u{301}", "c0", "c1", "0x", "e\u{301}", "c1", "a.b"]).prop_map(MT::bn),
+    ]
+    .boxed()
+}
+fn predicates() -> BoxedStrategy<MT> {
+    prop_oneof![
+        6 => pick(vec![x("p"), x("q"), MT::iri("tag:t"), MT::iri("http://é.example/ç?q=é#frag")]),
+        2 => Just(r("type")),
+        2 => pick(vec![r("first"), r("rest")]),
+        1 => pick(vec![r("value"), r("direction"), r("language")]),
+    ]
+    .boxed()
+}
+fn lexicals() -> BoxedStrategy<String> {
+    prop_oneof![
+        6 => pick(vec!["", "a", "hello", " x ", "1", "true", "ltr", "en", "é\u{1F600}", "\"q\"\\", "\n\t\r", "\u{0}\u{1}\u{7f}", "01", "1.5E0", "[1]", "{\"a\":1}"]).prop_map(String::from),
+        1 => prop::collection::vec(any::<char>(), 0..4).prop_map(|v| v.into_iter().collect::<String>()),
+    ]
+    .boxed()
+}
+fn literal() -> BoxedStrategy<MT> {
+    let dts = vec![
+        xsd("string"),
+        xsd("integer"),
+        xsd("double"),
+        xsd("boolean"),
+        "http://x/dt".to_string(),
+        rdf("HTML"),
+        format!("{I18N}en_ltr"),
+        format!("{I18N}_rtl"),
+        format!("{I18N}fr-ca_rtl"),
+        format!("{I18N}en"),
+        format!("{I18N}"),
+        format!("{I18N}EN_ltr"),
+        format!("{I18N}en_foo"),
+    ];
+    prop_oneof![
+        4 => lexicals().prop_map(MT::string),
+        4 => (lexicals(), pick(dts)).prop_map(|(l, d)| MT::Lit(l, d)),
+        3 => (lexicals(), pick(vec!["en", "EN", "en-US", "fr", "fr-ca", "de-Latn-DE", "x-priv"])).prop_map(|(l, t)| MT::Lang(l, t.to_string())),
+        2 => json_literal(),
+    ]
+    .boxed()
+}
+fn objects() -> BoxedStrategy<MT> {
+    prop_oneof![
+        3 => pick(vec![x("a"), x("b"), x("c"), r("nil"), r("List"), r("nil")]),
+        4 => pick(node_labels()).prop_map(MT::bn),
+        1 => pick(vec!["c0", "c1", "0x", "e\u{301}", "c0", "c1", "0x", "e\u{301}", "c1", "a.b"]).prop_map(MT::bn),
+        5 => literal(),
+    ]
+    .boxed()
+}
+
+/// well-formed list and all its deformations
+#[derive(Clone, Debug)]
+struct ListSpec {
+    g: Option<MT>,
+    g2: Option<MT>,
+    labels: Vec<&'static str>,
+    items: Vec<MT>,
+    /// 0 nil, 1 none (unterminated), 2 IRI, 3 literal, 4 back to node 0 (cycle), 5 another blank node
+    term: u8,
+    /// (subject, predicate, in_other_graph)
+    parents: Vec<(MT, MT, bool)>,
+    typed: u8,
+    /// 0 none, 1 extra property, 2 two rdf:first, 3 two rdf:rest, 4 no rdf:first,
+    /// 5 node's triples in the other graph, 6 node also described in the other graph,
+    /// 7 the same list repeated in the other graph, 8 node is an IRI
+    variant: u8,
+    at: usize,
+}
+impl ListSpec {
+    fn quads(&self) -> Vec<MQ> {
+        let n = self.labels.len();
+        let at = self.at % n;
+        let node = |i: usize| {
+            if self.variant == 8 && i == at {
+                x("ln")
+            } else {
+                MT::bn(self.labels[i])
+            }
+        };
+        let mut out = vec![];
+        let mut chain = |g: &Option<MT>, out: &mut Vec<MQ>| {
+            for i in 0..n {
+                let gi = if self.variant == 5 && i == at { &self.g2 } else { g };
+                if !(self.variant == 4 && i == at) {
+                    out.push(MQ::new(node(i), r("first"), self.items[i % self.items.len()].clone(), gi.clone()));
+                }
+                let next = if i + 1 < n {
+                    Some(node(i + 1))
+                } else {
+                    match self.term {
+                        0 => Some(r("nil")),
+                        1 => None,
+                        2 => Some(x("a")),
+                        3 => Some(MT::string("end")),
+                        4 => Some(node(0)),
+                        _ => Some(MT::bn("b")),
+                    }
+                };
+                if let Some(nx) = next {
+                    out.push(MQ::new(node(i), r("rest"), nx, gi.clone()));
+                }
+                if self.typed & (1 << i) != 0 {
+                    out.push(MQ::new(node(i), r("type"), r("List"), gi.clone()));
+                }
+            }
+        };
+        chain(&self.g, &mut out);
+        match self.variant {
+            1 => out.push(MQ::new(node(at), x("p"), MT::string("extra"), self.g.clone())),
+            2 => out.push(MQ::new(node(at), r("first"), MT::string("second"), self.g.clone())),
+            3 => out.push(MQ::new(node(at), r("rest"), r("nil"), self.g.clone())),
+            6 => out.push(MQ::new(node(at), x("p"), x("b"), self.g2.clone())),
+            7 => chain(&self.g2, &mut out),
+            _ => {}
+        }
+        for (s, p, other) in &self.parents {
+            out.push(MQ::new(s.clone(), p.clone(), node(0), if *other { self.g2.clone() } else { self.g.clone() }));
+        }
+        out
+    }
+}
+fn list_spec() -> BoxedStrategy<Vec<MQ>> {
+    let labels = prop::collection::vec(pick(vec!["l0", "l1", "l2", "l3", "a"]), 1..=4);
+    let items = prop::collection::vec(objects(), 1..=3);
+    let parent = (subjects(), prop_oneof![5 => pick(vec![x("p"), x("q")]), 1 => Just(r("first")), 1 => Just(r("rest")), 1 => Just(r("type"))], prop::bool::weighted(0.15));
+    let parents = prop_oneof![2 => Just(1usize), 1 => Just(0usize), 1 => Just(2usize)].prop_flat_map(move |n| prop::collection::vec(parent.clone(), n));
+    let term = prop_oneof![12 => Just(0u8), 1 => 1u8..=5];
+    let variant = prop_oneof![10 => Just(0u8), 8 => 1u8..=8];
+    let typed = prop_oneof![3 => Just(0u8), 1 => 0u8..16];
+    (pick(graphs()), pick(graphs()), labels, items, term, parents, typed, variant, 0usize..4)
+        .prop_map(|(g, g2, labels, items, term, parents, typed, variant, at)| ListSpec { g, g2, labels, items, term, parents, typed, variant, at }.quads())
+        .boxed()
+}
+/// compound literal shapes (meaningful under rdf_direction = compound-literal)
+fn compound_spec() -> BoxedStrategy<Vec<MQ>> {
+    let value = prop_oneof![4 => lexicals().prop_map(MT::string), 1 => literal()];
+    let dirn = prop_oneof![6 => pick(vec!["ltr", "rtl"]).prop_map(MT::string), 1 => literal()];
+    let lang = prop_oneof![3 => Just(None), 4 => pick(vec!["en", "fr-ca"]).prop_map(|t| Some(MT::string(t))), 1 => literal().prop_map(Some)];
+    let refs = prop_oneof![4 => Just(1usize), 1 => Just(0usize), 1 => Just(2usize)].prop_flat_map(|n| prop::collection::vec((subjects(), pick(vec![x("p"), x("q")]), prop::bool::weighted(0.15)), n));
+    (pick(vec!["c0", "c1", "a"]), pick(graphs()), pick(graphs()), value, dirn, lang, refs, prop::bool::weighted(0.1))
+        .prop_map(|(l, g, g2, value, dirn, lang, refs, extra)| {
+            let c = MT::bn(l);
+            let mut out = vec![MQ::new(c.clone(), r("value"), value, g.clone()), MQ::new(c.clone(), r("direction"), dirn, g.clone())];
+            if let Some(t) = lang {
+                out.push(MQ::new(c.clone(), r("language"), t, g.clone()));
+            }
+            if extra {
+                out.push(MQ::new(c.clone(), x("p"), MT::string("extra"), g.clone()));
+            }
+            for (s, p, other) in refs {
+                out.push(MQ::new(s, p, c.clone(), if other { g2.clone() } else { g.clone() }));
+            }
+            out
+        })
+        .boxed()
+}
+fn plain_quad() -> BoxedStrategy<MQ> {
+    (subjects(), predicates(), objects(), pick(graphs())).prop_map(|(s, p, o, g)| MQ::new(s, p, o, g)).boxed()
+}
+fn non_representable() -> BoxedStrategy<MQ> {
+    let tr = MT::triple(x("a"), x("p"), x("b"));
+    prop_oneof![
+        (literal(), predicates(), objects(), pick(graphs())).prop_map(|(s, p, o, g)| MQ::new(s, p, o, g)),
+        (subjects(), pick(vec![MT::bn("a"), MT::string("p"), MT::var("v")]), objects(), pick(graphs())).prop_map(|(s, p, o, g)| MQ::new(s, p, o, g)),
+        (subjects(), predicates(), objects(), pick(vec![MT::string("g"), MT::lang("g", "en"), tr.clone(), MT::var("g")])).prop_map(|(s, p, o, g)| MQ::new(s, p, o, Some(g))),
+        (subjects(), predicates(), pick(vec![tr.clone(), MT::var("o")]), pick(graphs())).prop_map(|(s, p, o, g)| MQ::new(s, p, o, g)),
+        (pick(vec![tr.clone(), MT::var("s")]), predicates(), objects(), pick(graphs())).prop_map(|(s, p, o, g)| MQ::new(s, p, o, g)),
+    ]
+    .boxed()
+}
+
+fn strategy() -> BoxedStrategy<Case> {
+    let ingredient = prop_oneof![
+        6 => plain_quad().prop_map(|q| vec![q]),
+        5 => list_spec(),
+        2 => compound_spec(),
+        1 => non_representable().prop_map(|q| vec![q]),
+    ];
+    (prop::collection::vec(ingredient, 0..=5), any::<bool>(), any::<bool>(), 0u8..3, 0u8..5)
+        .prop_map(|(parts, mode11, use_rdf_type, dir, spaces)| Case { quads: parts.concat(), mode11, use_rdf_type, dir, spaces })
+        .boxed()
+}
+
+// ------------------------------------------------------------------ system under test
+
+fn options(c: &Case) -> JsonLdOptions<DefaultLoaderFactory<NoLoader>> {
+    let o = JsonLdOptions::new()
+        .with_processing_mode(if c.mode11 { ProcessingMode::JsonLd1_1 } else { ProcessingMode::JsonLd1_0 })
+        .with_use_rdf_type(c.use_rdf_type)
+        .with_spaces(c.spaces as u16);
+    match c.dir {
+        1 => o.with_rdf_direction(RdfDirection::I18nDatatype),
+        2 => o.with_rdf_direction(RdfDirection::CompoundLiteral),
+        _ => o,
+    }
+}
+fn serialize(c: &Case, quads: &[MQ]) -> Result<Result<String, String>, String> {
+    let ds: Vec<Spog<SimpleTerm<'static>>> = quads.iter().map(MQ::to_spog).collect();
+    catch(|| {
+        let mut ser = JsonLdSerializer::new_with_options(Vec::<u8>::new(), options(c));
+        match ser.serialize_dataset(&ds) {
+            Ok(s) => Ok(s.to_string()),
+            Err(e) => Err(format!("{e}")),
+        }
+    })
+}
+fn parse(c: &Case, txt: &str) -> Result<Result<Vec<MQ>, String>, String> {
+    catch(|| {
+        let p = JsonLdParser::new_with_options(options(c));
+        let r: Result<Vec<Spog<SimpleTerm<'static>>>, _> = p.parse_str(txt).collect_quads();
+        match r {
+            Ok(v) => Ok(v
+                .iter()
+                .map(|(t, g)| MQ::new(MT::from_term(&t[0]), MT::from_term(&t[1]), MT::from_term(&t[2]), g.as_ref().map(MT::from_term)))
+                .collect()),
+            Err(e) => Err(format!("{e}")),
+        }
+    })
+}
+
+// ------------------------------------------------------------------ input analysis (triggers)
+
+struct Ana {
+    /// (graph, blank subject) -> predicates -> objects
+    nodes: BTreeMap<(Option<MT>, String), BTreeMap<String, Vec<MT>>>,
+    /// blank label -> number of representable quads having it as object
+    as_object: BTreeMap<String, usize>,
+}
+fn analyse(rep: &[MQ]) -> Ana {
+    let mut nodes: BTreeMap<(Option<MT>, String), BTreeMap<String, Vec<MT>>> = BTreeMap::new();
+    let mut as_object: BTreeMap<String, usize> = BTreeMap::new();
+    for q in rep {
+        if let (MT::Bnode(b), MT::Iri(p)) = (&q.s, &q.p) {
+            nodes.entry((q.g.clone(), b.clone())).or_default().entry(p.clone()).or_default().push(q.o.clone());
+        }
+        if let MT::Bnode(b) = &q.o {
+            *as_object.entry(b.clone()).or_default() += 1;
+        }
+    }
+    Ana { nodes, as_object }
+}
+impl Ana {
+    fn has(&self, key: &(Option<MT>, String), p: &str) -> bool {
+        self.nodes.get(key).map(|m| m.contains_key(p)).unwrap_or(false)
+    }
+    /// a blank node with rdf:rest rdf:nil, or a blank node preceding it through rdf:rest links,
+    /// that is nobody's object (in any graph): the head of a nil-terminated chain without parent
+    fn seed_without_parent(&self) -> bool {
+        let nil = r("nil");
+        let mut frontier: Vec<(Option<MT>, String)> =
+            self.nodes.iter().filter(|(_, m)| m.get(&rdf("rest")).is_some_and(|v| v.contains(&nil))).map(|(k, _)| k.clone()).collect();
+        let mut seen: BTreeSet<(Option<MT>, String)> = frontier.iter().cloned().collect();
+        while let Some((g, b)) = frontier.pop() {
+            if !self.as_object.contains_key(&b) {
+                return true;
+            }
+            for ((g2, b2), m) in &self.nodes {
+                if *g2 == g && m.get(&rdf("rest")).is_some_and(|v| v.contains(&MT::bn(b.clone()))) && seen.insert((g2.clone(), b2.clone())) {
+                    frontier.push((g2.clone(), b2.clone()));
+                }
+            }
+        }
+        false
+    }
+    /// a label that carries rdf:first/rdf:rest in one graph and is a subject in another graph
+    fn list_label_in_two_graphs(&self) -> bool {
+        self.nodes.iter().any(|((g, b), m)| {
+            (m.contains_key(&rdf("first")) || m.contains_key(&rdf("rest"))) && self.nodes.keys().any(|(g2, b2)| b2 == b && g2 != g)
+        })
+    }
+    /// blank nodes having rdf:type rdf:List together with rdf:first and rdf:rest
+    fn typed_list_nodes(&self) -> Vec<(Option<MT>, String)> {
+        self.nodes
+            .iter()
+            .filter(|(_, m)| m.contains_key(&rdf("first")) && m.contains_key(&rdf("rest")) && m.get(&rdf("type")).is_some_and(|v| v.contains(&r("List"))))
+            .map(|(k, _)| k.clone())
+            .collect()
+    }
+    fn has_list_node(&self) -> bool {
+        self.nodes.values().any(|m| m.contains_key(&rdf("first")) || m.contains_key(&rdf("rest")))
+    }
+    fn nested_list(&self) -> bool {
+        self.nodes.iter().any(|((g, _), m)| {
+            m.get(&rdf("first")).is_some_and(|v| v.iter().any(|o| matches!(o, MT::Bnode(b) if self.has(&(g.clone(), b.clone()), &rdf("rest")))))
+        })
+    }
+    /// nodes having the compound-literal shape: only rdf:value, rdf:direction (both required) and
+    /// rdf:language, each with a single literal value
+    fn compound_nodes(&self) -> Vec<(Option<MT>, String)> {
+        let ok = |m: &BTreeMap<String, Vec<MT>>, p: &str| m.get(&rdf(p)).is_some_and(|v| v.len() == 1 && v[0].is_literal());
+        self.nodes
+            .iter()
+            .filter(|(_, m)| {
+                ok(m, "value") && ok(m, "direction") && (m.len() == 2 || (m.len() == 3 && ok(m, "language")))
+            })
+            .map(|(k, _)| k.clone())
+            .collect()
+    }
+    fn direction_nodes(&self) -> bool {
+        self.nodes.values().any(|m| m.contains_key(&rdf("direction")))
+    }
+}
+
+fn shared_between_graphs(rep: &[MQ]) -> bool {
+    let mut seen: BTreeMap<String, BTreeSet<Option<MT>>> = BTreeMap::new();
+    for q in rep {
+        for t in [&q.s, &q.o] {
+            if let MT::Bnode(b) = t {
+                seen.entry(b.clone()).or_default().insert(q.g.clone());
+            }
+        }
+    }
+    seen.values().any(|s| s.len() > 1)
+}
+
+fn run(case: &Case, ctx: &mut Ctx) {
+    ctx.class(format!("mode:{}", if case.mode11 { "1.1" } else { "1.0" }));
+    ctx.class(format!("use_rdf_type:{}", case.use_rdf_type));
+    ctx.class(format!("rdf_direction:{}", ["none", "i18n-datatype", "compound-literal"][case.dir as usize % 3]));
+    ctx.class(format!("spaces:{}", case.spaces));
+    // excluded by construction (counted): non-canonical i18n datatypes under rdf_direction=i18n-datatype,
+    // for which the W3C algorithms themselves are not inverse of each other
+    let mut input: Vec<MQ> = vec![];
+    for q in &case.quads {
+        let noncanon = case.dir == 1 && matches!(&q.o, MT::Lit(_, dt) if dt.starts_with(I18N) && !i18n_canonical(dt));
+        // under rdf_direction=compound-literal, an rdf:language string that is a LanguageTag for sophia
+        // but not a well-formed BCP47 tag for the json-ld crate (e.g. "a") makes the parser drop the
+        // whole value object: excluded (counted)
+        let odd_lang = case.dir == 2
+            && q.p == r("language")
+            && matches!(&q.o, MT::Lit(l, dt) if dt == XSD_STRING && !{
+                let mut parts = l.split('-');
+                let first = parts.next().unwrap_or("");
+                (2..=3).contains(&first.len()) && first.chars().all(|c| c.is_ascii_lowercase())
+                    && parts.all(|p| (2..=8).contains(&p.len()) && p.chars().all(|c| c.is_ascii_lowercase() || c.is_ascii_digit()))
+            });
+        if noncanon {
+            ctx.count("excluded/i18n-noncanonical-datatype-under-i18n-direction", 1);
+        } else if odd_lang {
+            ctx.count("excluded/rdf-language-not-bcp47-under-compound-direction", 1);
+        } else {
+            input.push(q.clone());
+        }
+    }
+    let rep_all: Vec<MQ> = input.iter().filter(|q| representable(q)).cloned().collect();
+    ctx.count("quads", input.len() as u64);
+    ctx.count("quads-not-representable", (input.len() - rep_all.len()) as u64);
+    // a dataset is a set: the analysis below works on distinct quads (the serializer is fed the duplicates)
+    let rep: Vec<MQ> = crate::gen::dedup(rep_all.clone());
+    let ana = analyse(&rep);
+    let named = rep.iter().any(|q| q.g.is_some());
+    let shared = shared_between_graphs(&rep);
+    let typed = ana.typed_list_nodes();
+    for (c, n) in [
+        (ana.has_list_node(), "has:list-node"),
+        (named, "has:named-graph"),
+        (shared, "has:bnode-shared-between-graphs"),
+        (ana.seed_without_parent(), "has:list-seed-without-parent"),
+        (ana.list_label_in_two_graphs(), "has:list-label-in-two-graphs"),
+        (!typed.is_empty(), "has:typed-rdf-List-node"),
+        (ana.nested_list(), "has:nested-list"),
+        (ana.direction_nodes(), "has:rdf-direction-node"),
+        (rep_all.len() != input.len(), "has:non-representable-quad"),
+        (rep.iter().any(|q| q.g.as_ref().is_some_and(MT::is_bnode)), "has:blank-graph-name"),
+        (rep.iter().any(|q| q.o.datatype() == Some(&rdf("JSON")[..])), "has:rdf-JSON-literal"),
+        (rep.iter().any(|q| q.o.datatype().is_some_and(|d| d.starts_with(I18N))), "has:i18n-datatype"),
+        (rep.iter().any(|q| q.p == r("type") && !q.o.is_iri()), "has:rdf-type-non-iri-object"),
+        (rep.iter().any(|q| q.p == r("type") && q.o.is_iri()), "has:rdf-type-iri-object"),
+        (rep.iter().any(|q| q.g.as_ref().is_some_and(|g| rep.iter().any(|q2| &q2.s == g))), "has:graph-name-also-subject"),
+    ] {
+        if c {
+            ctx.class(n);
+        }
+    }
+    if ana.has_list_node() || named || shared {
+        ctx.nontrivial();
+    }
+
+    let fail = |ctx: &mut Ctx, sig: String, what: String, txt: Option<&str>, parsed: Option<&[MQ]>| {
+        ctx.fail(
+            sig,
+            format!(
+                "{what}\noptions: mode={} use_rdf_type={} rdf_direction={} spaces={}\ninput (representable part):\n{}\n{}{}",
+                if case.mode11 { "1.1" } else { "1.0" },
+                case.use_rdf_type,
+                case.dir,
+                case.spaces,
+                show_quads(&rep),
+                parsed.map(|p| format!("parsed back:\n{}\n", show_quads(p))).unwrap_or_default(),
+                txt.map(|t| format!("JSON-LD:\n{t}\n")).unwrap_or_default(),
+            ),
+        );
+    };
+    // generic trigger for failures that no specific analysis explains
+    let generic = || -> &'static str {
+        if ana.seed_without_parent() {
+            "list-seed-without-parent"
+        } else if ana.list_label_in_two_graphs() {
+            "list-label-in-two-graphs"
+        } else if case.dir == 2 && ana.direction_nodes() {
+            "compound-literal-shape"
+        } else if ana.nested_list() {
+            "nested-list"
+        } else if ana.has_list_node() {
+            "list-node"
+        } else if shared {
+            "bnode-shared-between-graphs"
+        } else if named {
+            "named-graph"
+        } else {
+            "plain"
+        }
+    };
+
+    record_inflight(case);
+    let txt = match serialize(case, &input) {
+        Err(p) => {
+            let sig = if ana.seed_without_parent() { "jsonld/list-seed-without-parent".to_string() } else { format!("jsonld/panic-serialize/{}", generic()) };
+            fail(ctx, sig, format!("serializer panicked: {p}"), None, None);
+            return;
+        }
+        Ok(Err(e)) => {
+            fail(ctx, format!("jsonld/serialize-error/{}", generic()), format!("serializer failed: {e}"), None, None);
+            return;
+        }
+        Ok(Ok(t)) => t,
+    };
+    {
+        let squeezed: String = txt.chars().filter(|c| !c.is_whitespace()).collect();
+        if squeezed.contains("\"@list\":[{") {
+            ctx.class("out:@list-with-items");
+        }
+        if squeezed.contains("\"@graph\":[{") {
+            ctx.class("out:@graph-with-nodes");
+        }
+        if squeezed.contains("\"@direction\"") {
+            ctx.class("out:@direction");
+        }
+        if squeezed.contains("\"@json\"") {
+            ctx.class("out:@json");
+        }
+    }
+    let parsed = match parse(case, &txt) {
+        Err(p) => {
+            fail(ctx, format!("jsonld/panic-parse/{}", generic()), format!("parser panicked on the serializer's output: {p}"), Some(&txt), None);
+            return;
+        }
+        Ok(Err(e)) => {
+            fail(ctx, format!("jsonld/output-rejected-by-parser/{}", generic()), format!("parser rejects the serializer's output: {e}"), Some(&txt), None);
+            return;
+        }
+        Ok(Ok(p)) => p,
+    };
+    match iso_exact_budget(&rep, &parsed, Some(ISO_BUDGET)) {
+        Some(true) => {}
+        None => ctx.count("iso-budget-exhausted", 1),
+        Some(false) => {
+            // Explanations that are recorded findings; each is a transformation of the expectation.
+            // (a) third-party parser: blank node labels containing '.' are not recognised as blank
+            //     node identifiers by the json-ld crate and come back as IRIs relative to the base
+            let dotted = rep.iter().any(|q| q.bnodes().iter().any(|b| b.contains('.')));
+            let t_dot = |qs: &[MQ]| -> Vec<MQ> {
+                let f = |t: &MT| match t {
+                    MT::Bnode(b) if b.contains('.') => MT::Iri(format!("x-string:///_:{b}")),
+                    o => o.clone(),
+                };
+                qs.iter().map(|q| MQ::new(f(&q.s), q.p.clone(), f(&q.o), q.g.as_ref().map(f))).collect()
+            };
+            // (b) third-party parser: under rdf_direction=compound-literal the json-ld crate creates the
+            //     blank node of a value object with @direction but never its rdf:value/direction/language triples
+            let cl_all: Vec<(Option<MT>, String)> = if case.dir == 2 { ana.compound_nodes() } else { vec![] };
+            // only those referenced exactly once, from their own graph, may legitimately become value objects
+            let cl_nodes: Vec<(Option<MT>, String)> = cl_all
+                .iter()
+                .filter(|(g, b)| {
+                    let refs: Vec<&MQ> = rep.iter().filter(|q| q.o == MT::bn(b.clone())).collect();
+                    refs.len() == 1 && refs[0].g == *g
+                })
+                .take(4)
+                .cloned()
+                .collect();
+            let t_cl = |qs: &[MQ], m: u32| -> Vec<MQ> {
+                qs.iter()
+                    .filter(|q| !matches!(&q.s, MT::Bnode(b) if cl_nodes.iter().enumerate().any(|(i, n)| m & (1 << i) != 0 && *n == (q.g.clone(), b.clone()))))
+                    .cloned()
+                    .collect()
+            };
+            // (c) spec-mandated loss: rdf:type rdf:List on list nodes that were compacted into @list
+            //     - up to 8 typed list nodes: exact search over the subsets of their rdf:type quads;
+            //     - more: both sides are compared after removing every rdf:type rdf:List quad of a
+            //       node having rdf:first and rdf:rest (the parse must not have more of them)
+            let tq: Vec<MQ> = if !case.use_rdf_type && typed.len() <= 8 {
+                typed.iter().map(|(g, b)| MQ::new(MT::bn(b.clone()), r("type"), r("List"), g.clone())).collect()
+            } else {
+                vec![]
+            };
+            let strip = |qs: &[MQ]| -> Vec<MQ> {
+                let t = analyse(qs).typed_list_nodes();
+                qs.iter()
+                    .filter(|q| !(q.p == r("type") && q.o == r("List") && matches!(&q.s, MT::Bnode(b) if t.contains(&(q.g.clone(), b.clone())))))
+                    .cloned()
+                    .collect()
+            };
+            let big_typed = !case.use_rdf_type && typed.len() > 8 && {
+                let p = crate::gen::dedup(parsed.clone());
+                strip(&p).len() + typed.len() >= p.len() && rep.len() - strip(&rep).len() >= p.len() - strip(&p).len()
+            };
+            let (rep_d, parsed_d) = if big_typed { (strip(&rep), strip(&parsed)) } else { (rep.clone(), parsed.clone()) };
+            // (d) third-party parser: a value object with @direction and no @language is given the
+            //     datatype i18n#<dir> instead of i18n#_<dir>
+            let empty_lang = case.dir == 1 && rep.iter().any(|q| matches!(&q.o, MT::Lit(_, dt) if dt.starts_with(&format!("{I18N}_"))));
+            let t_i18n = |qs: &[MQ]| -> Vec<MQ> {
+                qs.iter()
+                    .map(|q| match &q.o {
+                        MT::Lit(l, dt) if dt.starts_with(&format!("{I18N}_")) => {
+                            MQ::new(q.s.clone(), q.p.clone(), MT::Lit(l.clone(), format!("{I18N}{}", &dt[I18N.len() + 1..])), q.g.clone())
+                        }
+                        _ => q.clone(),
+                    })
+                    .collect()
+            };
+            let applicable = [dotted, empty_lang];
+            let mut combos: Vec<(u32, u32, u32)> = vec![];
+            for sel in 0u32..4 {
+                if (0..2).any(|i| sel & (1 << i) != 0 && !applicable[i]) {
+                    continue;
+                }
+                for clm in 0u32..(1 << cl_nodes.len()) {
+                    for mask in 0u32..(1 << tq.len()) {
+                        if sel != 0 || mask != 0 || clm != 0 || big_typed {
+                            combos.push((sel, clm, mask));
+                        }
+                    }
+                }
+            }
+            combos.sort_by_key(|(s, c, m)| (s.count_ones() + c.count_ones() + m.count_ones(), *s, *c, *m));
+            for (sel, clm, mask) in combos {
+                let (dot, cl, i18n) = (sel & 1 != 0, clm != 0, sel & 2 != 0);
+                let mut exp: Vec<MQ> = rep_d.iter().filter(|q| !tq.iter().enumerate().any(|(i, t)| mask & (1 << i) != 0 && t == *q)).cloned().collect();
+                if cl {
+                    exp = t_cl(&exp, clm);
+                }
+                if dot {
+                    exp = t_dot(&exp);
+                }
+                if i18n {
+                    exp = t_i18n(&exp);
+                }
+                if iso_exact_budget(&exp, &parsed_d, Some(ISO_BUDGET)) == Some(true) {
+                    if mask != 0 || big_typed {
+                        fail(
+                            ctx,
+                            "jsonld/typed-rdf-List-node".into(),
+                            format!("rdf:type rdf:List dropped from {} list node(s) compacted into @list (nothing else differs)", if big_typed { rep.len() - crate::gen::dedup(parsed.clone()).len() } else { mask.count_ones() as usize }),
+                            Some(&txt),
+                            Some(&parsed),
+                        );
+                    }
+                    if cl {
+                        fail(
+                            ctx,
+                            "jsonld/compound-literal-shape".into(),
+                            "rdf_direction=compound-literal: the value object is parsed back as a lone blank node, its rdf:value/rdf:direction/rdf:language triples are missing (nothing else differs)".into(),
+                            Some(&txt),
+                            Some(&parsed),
+                        );
+                    }
+                    if dot {
+                        fail(
+                            ctx,
+                            "jsonld/bnode-label-with-dot".into(),
+                            "a blank node label containing '.' is written as \"_:<label>\" and read back as an IRI relative to the base (nothing else differs)".into(),
+                            Some(&txt),
+                            Some(&parsed),
+                        );
+                    }
+                    if i18n {
+                        fail(
+                            ctx,
+                            "jsonld/i18n-datatype-empty-language".into(),
+                            "rdf_direction=i18n-datatype: a literal typed i18n#_<dir> (direction without language) is read back with datatype i18n#<dir> (nothing else differs)".into(),
+                            Some(&txt),
+                            Some(&parsed),
+                        );
+                    }
+                    return;
+                }
+            }
+            let g = if cl_all.len() > cl_nodes.len() { "compound-literal-refcount" } else { generic() };
+            fail(
+                ctx,
+                format!("jsonld/not-isomorphic/{g}"),
+                format!("round trip is not isomorphic to the representable part of the input\n{}", diff_summary(&rep, &parsed)),
+                Some(&txt),
+                Some(&parsed),
+            );
+        }
+    }
+}
+
+impl Check for C12 {
+    type Case = Case;
+    const ID: &'static str = "C12";
+    fn rule() -> String {
+        "datasets assembled from up to 5 ingredients over small shared pools of labels/graphs (plain quads incl. rdf:type/first/rest/value/direction/language predicates and all literal kinds; rdf lists well-formed or deformed: unreferenced/multiply referenced/cross-graph parent, typed rdf:List, extra property, two rdf:first/rest, missing first, unterminated, cyclic, IRI node, node split across graphs, label reused in another graph, nested through rdf:first; compound-literal shapes; non-representable quads), options mode 1.0/1.1 x use_rdf_type x rdf_direction(none,i18n,compound; same on both sides) x spaces 0..4. Non-trivial = representable part contains a blank node with rdf:first/rdf:rest, a named graph, or a blank node occurring in two graphs; distinct by hash of the whole case.".into()
+    }
+    fn assumptions() -> Vec<String> {
+        vec![
+            "use_native_types is never set (the specification defines it as lossy)".into(),
+            "under rdf_direction=compound-literal, quads <x rdf:language \"s\"> where s is not of the form [a-z]{2,3}(-[a-z0-9]{2,8})* are removed from the input before serialising (counter excluded/...): sophia's LanguageTag accepts them, the json-ld crate's BCP47 parser does not, and drops the whole value object".into(),
+            "under rdf_direction=i18n-datatype, literals whose datatype is in the i18n namespace but not of the form #<lower-case lang or empty>_<ltr|rtl> are removed from the input before serialising (counter excluded/...): the W3C to-RDF and from-RDF algorithms are not inverse on them".into(),
+            "rdf:JSON literals are generated in RFC 8785 canonical form (integers, n+0.5, strings, arrays, objects with distinct keys)".into(),
+            "language tags are compared case-insensitively".into(),
+            "the serializer iterates HashMaps, so the member order of its output varies between processes; the check itself is a pure function of the case".into(),
+        ]
+    }
+    fn cases(tier: Tier) -> u32 {
+        tier.pick(150_000, 5_000_000)
+    }
+    fn strategy(_tier: Tier) -> BoxedStrategy<Case> {
+        strategy()
+    }
+    fn run(case: &Case, ctx: &mut Ctx) {
+        run(case, ctx)
+    }
+}
+
+// ------------------------------------------------------------------ crash supervision
+//
+// The serializer is recursive (mark_list_node, populate_list): a defect there can overflow the
+// stack, which aborts the whole process instead of unwinding. The generated-case run therefore
+// happens in a supervised child process (`vcheck --worker C12 <args>`); each thread of the child
+// records the case it is about to evaluate in replays/.inflight-C12/<n>.json. If the child is
+// killed, the supervisor replays the in-flight cases one by one in fresh children to find the
+// culprit and reports it as a violation with a replay file. A child that cannot be started or
+// a crash that does not reproduce is "inconclusive" (exit 2), never a violation.
+
+fn inflight_dir() -> std::path::PathBuf {
+    verif_root().join("replays").join(".inflight-C12")
+}
+fn record_inflight(case: &Case) {
+    use std::sync::atomic::{AtomicUsize, Ordering};
+    static NEXT: AtomicUsize = AtomicUsize::new(0);
+    thread_local! { static SLOT: usize = NEXT.fetch_add(1, Ordering::Relaxed); }
+    if std::env::var_os("VCHECK_C12_SUPERVISED").is_none() {
+        return;
+    }
+    let slot = SLOT.with(|s| *s);
+    let _ = std::fs::write(inflight_dir().join(format!("{slot}.json")), serde_json::json!({ "case": case }).to_string());
+}
+
+pub fn main(opts: &Opts) -> i32 {
+    if opts.replay.is_some() || std::env::var_os("VCHECK_C12_SUPERVISED").is_some() {
+        return drive::<C12>(opts);
+    }
+    let dir = inflight_dir();
+    let _ = std::fs::remove_dir_all(&dir);
+    if std::fs::create_dir_all(&dir).is_err() {
+        return drive::<C12>(opts);
+    }
+    let exe = match std::env::current_exe() {
+        Ok(e) => e,
+        Err(_) => return drive::<C12>(opts),
+    };
+    let mut args: Vec<String> = vec!["--worker".into(), "C12".into(), "--tier".into(), opts.tier.name().into(), "--seed".into(), opts.seed.to_string()];
+    if let Some(n) = opts.cases_override {
+        args.push("--cases".into());
+        args.push(n.to_string());
+    }
+    let status = std::process::Command::new(&exe).args(&args).env("VCHECK_C12_SUPERVISED", "1").status();
+    let code = match status {
+        Err(e) => {
+            println!("INCONCLUSIVE: cannot start the supervised run: {e}");
+            return 2;
+        }
+        Ok(st) => st.code(),
+    };
+    if let Some(c @ (0 | 1 | 2)) = code {
+        let _ = std::fs::remove_dir_all(&dir);
+        return c;
+    }
+    // the child was killed (stack overflow / abort): find the culprit among the in-flight cases
+    println!("C12: the run was killed ({:?}); replaying the in-flight cases in fresh processes", code);
+    let mut files: Vec<_> = std::fs::read_dir(&dir).map(|rd| rd.filter_map(|e| e.ok()).map(|e| e.path()).collect()).unwrap_or_default();
+    files.sort();
+    let mut found = 0;
+    let mut seen_sigs = BTreeSet::new();
+    for f in files {
+        let st = std::process::Command::new(&exe).arg("C12").arg("--replay").arg(&f).env("VCHECK_C12_SUPERVISED", "1").output();
+        let killed = matches!(&st, Ok(o) if !matches!(o.status.code(), Some(0 | 1 | 2)));
+        if !killed {
+            continue;
+        }
+        let case: serde_json::Value = std::fs::read_to_string(&f).ok().and_then(|t| serde_json::from_str::<serde_json::Value>(&t).ok()).map(|v| v["case"].clone()).unwrap_or_default();
+        let trig = serde_json::from_value::<Case>(case.clone())
+            .map(|c| {
+                let rep: Vec<MQ> = crate::gen::dedup(c.quads.iter().filter(|q| representable(q)).cloned().collect());
+                let a = analyse(&rep);
+                if a.seed_without_parent() {
+                    "list-seed-without-parent"
+                } else if a.nested_list() {
+                    "nested-list"
+                } else if a.has_list_node() {
+                    "list-node"
+                } else {
+                    "plain"
+                }
+            })
+            .unwrap_or("plain");
+        if !seen_sigs.insert(trig) {
+            continue;
+        }
+        let out = verif_root().join("replays").join(format!("C12-{}-crash{found}.json", opts.seed));
+        let rf = ReplayFile {
+            property: "C12".into(),
+            signature: format!("jsonld/process-killed/{trig}"),
+            detail: "serialising or parsing this case kills the process (stack overflow or abort) instead of returning".into(),
+            case,
+        };
+        let _ = std::fs::write(&out, serde_json::to_string_pretty(&rf).unwrap_or_default());
+        println!("VIOLATION property=C12 replay={}", out.display());
+        println!("  signature: {}", rf.signature);
+        println!("  | {}", rf.detail);
+        found += 1;
+    }
+    let _ = std::fs::remove_dir_all(&dir);
+    if found > 0 {
+        1
+    } else {
+        println!("INCONCLUSIVE: the supervised run was killed but no in-flight case reproduces it");
+        2
+    }
+}
+
+/// `vcheck --worker C12 --tier T --seed N [--cases N]`: the supervised run itself
+pub fn worker(args: &[String]) -> i32 {
+    let mut opts = Opts { tier: Tier::Quick, seed: 20261003, replay: None, cases_override: None };
+    let mut i = 0;
+    while i < args.len() {
+        match args[i].as_str() {
+            "--tier" => {
+                i += 1;
+                if args.get(i).map(|s| s == "thorough").unwrap_or(false) {
+                    opts.tier = Tier::Thorough;
+                }
+            }
+            "--seed" => {
+                i += 1;
+                opts.seed = args.get(i).and_then(|s| s.parse().ok()).unwrap_or(opts.seed);
+            }
+            "--cases" => {
+                i += 1;
+                opts.cases_override = args.get(i).and_then(|s| s.parse().ok());
+            }
+            _ => {}
+        }
+        i += 1;
+    }
+    drive::<C12>(&opts)
 }
